@@ -2,6 +2,7 @@ import importlib.util
 import json
 import os
 import re
+import threading
 import vf
 
 _spec = importlib.util.spec_from_file_location("fmtlib", os.path.join(vf.ROOT, "props", "C09", "fmtlib.py"))
@@ -13,11 +14,17 @@ RULE = ("two real shards (2 and 5 documents, symbols, 2 branches; 2.4 and 3.3 KB
         "theorems, the intact shards. thorough: ALL truncations, ALL single-bit flips of the last 600 bytes (TOC, trailer, section tables) and a seeded sample of the other flips of both shards (17k files; all 51k with VERIF_C11_ALL=1); quick: a seeded "
         "sample biased to the TOC/section tables. Each file is put next to a healthy shard and served by NewDirectorySearcher in a "
         "subprocess (7 s in-process + 10 s parent watchdog, ulimit -v 4 GiB, GOMEMLIMIT): 5 searches (const, substring, file name, "
-        "symbol, regexp; Whole) + List (const and substring); the healthy shard's results must equal the baseline. non-trivial = flips and truncations")
+        "symbol, regexp; Whole) + List (const and substring); the healthy shard's results must equal the baseline. SECOND PASS (every tier): "
+        "targeted corruptions WRITTEN BY THE MODEL (Model/FormatPosting.v targets): the model's reader locates the posting lists of the "
+        "5-document shard (TOC, ngram text, b-tree, postings index), picks 2 long / 3 short / 1 one-byte content lists and 2 file-name lists, "
+        "and per list sets the continuation bit of the last byte (list ends inside a varint), of every byte, of the first byte, or writes an "
+        "overflowing varint at the start / after the first posting; each file is served as above AND queried on exactly that trigram "
+        "(substring case-sensitive/insensitive, regexp, (?i) regexp, List; Whole search = the iterator is walked to the end); control: the "
+        "intact shard must answer these queries with hits. non-trivial = flips, truncations and targeted corruptions")
 
-TRUSTED = ["hunt harness harness/overlay/search/zz_verif_c11_test.go (variant generator, subprocess watchdog, outcome classification, call-site extraction from goroutine dumps)",
+TRUSTED = ["hunt harness harness/overlay/search/zz_verif_c11_test.go (variant generator, subprocess watchdog, outcome classification, call-site extraction from goroutine dumps) and the iterator harness harness/overlay/index/zz_verif_c11_iter_test.go",
            "hand-written model of the reader (Model/Format.v) over arbitrary bytes; tied to the implementation by (a) the byte-exact C09 correspondence on valid shards and (b) the outcome correspondence here: model says load error => implementation did not load; model says loads => no crash/hang",
-           "outside the theorems (hunt only): JSON metadata parsing, roaring bitmap, b-tree construction on unsorted keys, match iterators, query evaluation",
+           "outside the theorems (hunt only): JSON metadata parsing, roaring bitmap, b-tree construction on unsorted keys, the match iterators ABOVE compressedPostingIterator (ngramDocIterator, mergingIterator, match trees), query evaluation",
            "mmap semantics: reads inside the last page beyond the file size return zeros; files are not modified after being loaded"]
 
 OBS = {"error": 0, "served-ok": 1, "contained-crash": 2, "PROCESS-CRASH": 3, "HANG": 4, "api-error": 5}
@@ -27,12 +34,40 @@ def nlist(hexs):
     return "[" + ";".join(str(b) for b in bytes.fromhex(hexs)) + "]%N"
 
 
+IMPORTS_P = ["From ZV Require Import Lib.Base Model.Format Model.FormatRobust Model.FormatStats Model.FormatPosting."]
+TARGET_BASE = 1   # the 5-document shard: posting lists from 1 to 20+ bytes
+
+
+def targeted_variants(ctx, base_hex):
+    """Model-written targeted corruptions (Model/FormatPosting.v: targets): for a handful of posting lists of the real
+    shard (located by the model's reader: TOC -> ngram text -> b-tree -> postings index) the list is made to end inside
+    a varint / to contain an overflowing varint; returns (variants for the harness, model predictions, error)."""
+    rc, out = vf.coq_eval_term(ctx, IMPORTS_P, "targets %s" % nlist(base_hex), timeout=900)
+    m = re.search(r"r = \[(.*)\] : list \(list N\)", out)
+    if rc != 0 or not m:
+        return [], [], "could not evaluate the model's targeted corruptions: " + out[-600:]
+    base = bytes.fromhex(base_hex)
+    vs, preds, controls = [], [], {}
+    for part in re.findall(r"\[([0-9; ]*)\]", m.group(1)):
+        rec = [int(x) for x in part.replace(" ", "").split(";") if x]
+        tkind, isname, r0, r1, r2, off, sz, pred = rec[:8]
+        b = bytearray(base)
+        for i in range(8, len(rec), 2):
+            b[rec[i]] = rec[i + 1]
+        tri = chr(r0) + chr(r1) + chr(r2)
+        if (tri, isname) not in controls:
+            controls[(tri, isname)] = dict(kind="target-control", hex=base_hex, tri=tri, name=bool(isname), off=off, sz=sz)
+        vs.append(dict(kind="target", hex=bytes(b).hex(), tri=tri, name=bool(isname), tkind=tkind, off=off, sz=sz))
+        preds.append(pred)
+    return list(controls.values()) + vs, preds, None
+
+
 def run(ctx):
     broken, failures = [], []
     okc, msg = fmtlib.regen_consts(ctx)
     if not okc:
         broken.append(msg)
-    proofs = vf.coq_props(ctx, "C11", extra_targets=["Model/FormatRobust.vo", "Model/FormatStats.vo"])
+    proofs = vf.coq_props(ctx, "C11", extra_targets=["Model/FormatRobust.vo", "Model/FormatStats.vo", "Model/FormatPosting.vo"])
     aok, aout = vf.audit()
     if not aok:
         proofs["ok"] = False
@@ -61,6 +96,16 @@ def run(ctx):
         else:
             broken.append("could not evaluate the model's witness files: " + out[-600:])
     n = ctx.n(80, 800)
+    # tie of the posting-iterator model: differential run on arbitrary bytes in package index (own thread: its test binary
+    # builds while the hunt runs)
+    ires = {}
+
+    def iter_pass():
+        ires["hr"] = vf.go_harness(ctx, "index", "TestVerifC11Iter$", ["index/zz_verif_c11_iter_test.go"], ctx.n(300, 3000),
+                                   timeout=900, out_name="out-iter.jsonl")
+
+    ithread = threading.Thread(target=iter_pass)
+    ithread.start()
     hr = vf.go_harness(ctx, "search", "TestVerifC11$", ["search/zz_verif_c11_test.go"], n,
                        env={"VERIF_C11_WITNESSES": wfile}, timeout=900 if ctx.tier == "quick" else 5400)
     recs = hr["records"]
@@ -71,6 +116,25 @@ def run(ctx):
     if hr["rc"] != 0:
         broken.append("harness TestVerifC11 failed (rc=%d): %s" % (hr["rc"], hr["log"][-1500:]))
     bases = [r for r in recs if r.get("kind") == "info" and r.get("what") == "c11-bases"]
+    # second pass, in parallel with the model evaluation of the first pass: targeted corruptions of single posting lists
+    tres = {}
+
+    def targeted_pass():
+        tvs, preds, err = targeted_variants(ctx, bases[0]["hex"][TARGET_BASE])
+        if err or not tvs:
+            tres["broken"] = err or "the model wrote no targeted corruption (no posting list found in the base shard)"
+            return
+        tfile = os.path.join(ctx.tmp, "targets.json")
+        json.dump(tvs, open(tfile, "w"))
+        tres["preds"] = preds
+        tres["n"] = len(tvs)
+        tres["hr"] = vf.go_harness(ctx, "search", "TestVerifC11$", ["search/zz_verif_c11_test.go"], n,
+                                   env={"VERIF_C11_TARGETS": tfile}, timeout=900, out_name="out-targeted.jsonl")
+
+    tthread = None
+    if bases and proofs.get("ok") and hr["rc"] == 0:
+        tthread = threading.Thread(target=targeted_pass)
+        tthread.start()
     # correspondence: model outcome class vs implementation outcome class
     ev = dict(ok=True, bad=[], evaluated=0, log="")
     cases, csrc = [], []
@@ -101,6 +165,49 @@ def run(ctx):
             broken.append("correspondence c11_mismatches: model and implementation disagree on the outcome class of %s" % json.dumps(csrc[i])[:600])
     elif hr["rc"] == 0 and not outcomes:
         broken.append("harness produced no outcomes")
+    ithread.join()
+    ihr = ires.get("hr") or dict(rc=1, log="iterator harness did not run", records=[])
+    icases = [r for r in ihr["records"] if r.get("kind") == "case"]
+    for r in ihr["records"]:
+        if r.get("kind") == "oracle_fail":
+            failures.append(dict(key=r.get("key", "?"), what=r.get("what", ""), replay=r.get("replay")))
+    if ihr["rc"] != 0:
+        broken.append("harness TestVerifC11Iter failed (rc=%d): %s" % (ihr["rc"], ihr["log"][-1500:]))
+    iev = dict(ok=True, bad=[], evaluated=0, log="")
+    if icases and proofs.get("ok"):
+        iev = vf.coq_eval_cases(ctx, "C11", ["From ZV Require Import Lib.Base Model.FormatPosting."], "c11icase", "c11i_mismatches",
+                                [c["coq"] for c in icases], shard=1000, tag="iter")
+        if not iev["ok"]:
+            broken.append("model evaluation (posting iterator) failed: " + iev["log"][-1500:])
+        for i in iev["bad"][:20]:
+            broken.append("correspondence c11i_mismatches: model and compressedPostingIterator disagree on %s" % json.dumps(icases[i].get("sample"))[:600])
+    elif ihr["rc"] == 0 and not icases:
+        broken.append("iterator harness produced no cases")
+    toutcomes = []
+    if tthread:
+        tthread.join()
+        if tres.get("broken"):
+            broken.append(tres["broken"])
+        else:
+            thr = tres["hr"]
+            for r in thr["records"]:
+                if r.get("kind") == "oracle_fail":
+                    failures.append(dict(key=r.get("key", "?"), what=r.get("what", ""), replay=r.get("replay")))
+            if thr["rc"] != 0:
+                broken.append("harness TestVerifC11 (targeted pass) failed (rc=%d): %s" % (thr["rc"], thr["log"][-1500:]))
+            toutcomes = sorted([r for r in thr["records"] if r.get("kind") == "outcome"], key=lambda r: r["id"])
+            tt = [o for o in toutcomes if o["vkind"] == "target"]
+            if thr["rc"] == 0 and len(toutcomes) != tres["n"]:
+                broken.append("targeted pass: %d of %d variants classified" % (len(toutcomes), tres["n"]))
+            # the model says of every targeted file: it loads and the walk of the damaged list ends (3); the implementation
+            # must serve it (or contain a crash) — HANG / PROCESS-CRASH are oracle failures already
+            for o, pred in zip(tt, tres["preds"]):
+                if pred != 3:
+                    broken.append("targeted corruption %s: the model does not predict 'loads, iterator terminates' (pred=%d)" % (json.dumps(o)[:300], pred))
+                elif o["class"] not in ("served-ok", "contained-crash", "HANG", "PROCESS-CRASH"):
+                    broken.append("correspondence (targeted): model says the file loads and the posting iterator terminates, implementation class %s: %s" % (o["class"], json.dumps(o)[:300]))
+    elif not broken and not failures:
+        broken.append("the targeted pass did not run")
     # the model's witnesses must show the class the theorems predict for the repaired tree
     expect = ["served-ok", "served-ok", "served-ok", "error", "contained-crash", "served-ok", "error"]
     wobs = [o["class"] for o in sorted(outcomes, key=lambda r: r["id"]) if o["vkind"] == "witness"]
@@ -109,12 +216,17 @@ def run(ctx):
         if not any(w in ("HANG", "PROCESS-CRASH") for w in wobs):
             broken.append("replay of the model's witness files: implementation classes %s, the theorems predict %s" % (wobs, expect[:len(wobs)]))
     hist = {}
+    outcomes = outcomes + toutcomes
     for o in outcomes:
         hist["%s/%s" % (o["vkind"], o["class"])] = hist.get("%s/%s" % (o["vkind"], o["class"]), 0) + 1
-    nontrivial = len(set((o["base"], o["vkind"], o["pos"], o["bit"]) for o in outcomes if o["vkind"] in ("flip", "trunc")))
+    nontrivial = len(set((o["base"], o["vkind"], o["pos"], o["bit"], o.get("tri"), o.get("tkind"), o.get("name")) for o in outcomes if o["vkind"] in ("flip", "trunc", "target")))
     cov = dict(evaluations=len(outcomes), distinct_nontrivial=nontrivial, rule=RULE,
                samples=[{k: o[k] for k in ("vkind", "base", "pos", "bit", "class")} for o in outcomes[:3]],
-               traces_validated_against_impl=ev["evaluated"], correspondence_mismatches=len(ev["bad"]),
+               traces_validated_against_impl=ev["evaluated"] + iev["evaluated"], correspondence_mismatches=len(ev["bad"]) + len(iev["bad"]),
+               posting_iterator=dict(cases=len(icases), evaluated=iev["evaluated"], mismatches=len(iev["bad"]), classes=vf.histogram(icases, "class"),
+                                     rule="compressedPostingIterator on arbitrary bytes (valid delta lists, last byte's continuation bit set, a random continuation bit, "
+                                          "overflowing 10/11-byte varints spliced in, random bytes; limits: complete walk next(first()) or arbitrary incl. MaxUint32) under a "
+                                          "20 s watchdog; observed first() after every call, len(blob), indexBytesLoaded compared with Model/FormatPosting.v cpi_new/cpi_next"),
                oracle_failures=len(failures), input_distribution=dict(sorted(hist.items(), key=lambda kv: -kv[1])),
                witnesses_replayed=nwit, trusted_base=TRUSTED,
                info=[{k: v for k, v in r.items() if k not in ("kind", "hex")} for r in recs if r.get("kind") == "info" and r.get("what") != "c11-bases"])
